@@ -213,6 +213,38 @@ func FixedCorpus() []*Unit {
 		out = append(out, u)
 	}
 
+	// ---- nest2: nested types that themselves declare nested types, followed
+	// by a sibling with nested types (order of the Go type tables)
+	{
+		u, f := unit("nest2", "nested message declaring nested enum+message, followed by a sibling with nested enum+message")
+		pkg := "verif.nest2"
+		o := f.Msg("Outer")
+		mid := o.Nested("Mid")
+		mid.Enum("Kind", "KIND_ZERO", 0, "KIND_ONE", 1)
+		leaf := mid.Nested("Leaf")
+		leaf.F("v", 1, S(Int32))
+		mid.F("k", 1, E(pkg+".Outer.Mid.Kind"))
+		mid.F("leaf", 2, M(pkg+".Outer.Mid.Leaf"))
+		mid.Map("by", 3, String, M(pkg+".Outer.Mid.Leaf"))
+		o.F("mid", 1, M(pkg+".Outer.Mid"))
+		o.Enum("OE", "OE_A", 0, "OE_B", 2)
+		o.F("oe", 2, E(pkg+".Outer.OE"))
+		other := f.Msg("Other")
+		other.Enum("Color", "RED_ZERO", 0, "RED", 1, "BLUE", 5)
+		box := other.Nested("Box")
+		box.F("w", 1, S(Uint32))
+		box.Enum("Side", "SIDE_L", 0, "SIDE_R", 1)
+		box.F("side", 2, E(pkg+".Other.Box.Side"))
+		other.F("c", 1, E(pkg+".Other.Color"))
+		other.F("box", 2, M(pkg+".Other.Box"))
+		other.R("kinds", 3, E(pkg+".Outer.Mid.Kind"))
+		f.Enum("Top", "TOP_0", 0, "TOP_9", 9)
+		third := f.Msg("Third")
+		third.F("t", 1, E(pkg+".Top"))
+		third.F("o", 2, M(pkg+".Outer"))
+		out = append(out, u)
+	}
+
 	// ---- impa / impb: imports across two Go packages
 	{
 		ua, fa := unit("impa", "imported package")
